@@ -116,12 +116,12 @@ pub(super) fn escape_misused_character_class(expression: &str) -> String {
     let actual_closing_index = |idx: usize| {
         let mut idx = idx;
         while idx < chars.len() {
-            if chars[idx - 1] != '\\' {
-                if chars[idx] == ']' {
-                    return Some(idx);
-                } else if chars[idx] == '[' {
-                    return None;
-                }
+            match chars[idx] {
+                // skip the escaped character (which may be a backslash itself)
+                '\\' => idx += 1,
+                ']' => return Some(idx),
+                '[' => return None,
+                _ => {}
             }
             idx += 1;
         }
